@@ -28,7 +28,7 @@ OUT = os.path.join(VERIF, 'out')
 REPLAYS = os.path.join(OUT, 'replays')
 EVIDENCE = os.path.join(VERIF, 'evidence')
 KNOWN_FILE = os.path.join(VERIF, 'known_findings.json')
-REPO_SRC = os.path.realpath('/repo/src')
+REPO_SRC = os.path.realpath(os.environ.get('KYUPY_VERIF_SRC') or '/repo/src')
 
 ASSUMPTION_PURE_PYTHON = ('numba and CUDA are absent in this image: the library runs on its own MockNumba / MockCuda '
                           'fall-backs (pure Python); compiled kernels are out of reach')
@@ -36,6 +36,13 @@ ASSUMPTION_PURE_PYTHON = ('numba and CUDA are absent in this image: the library 
 
 class HarnessError(Exception):
     """Something is wrong with the harness or its coupling to the source (exit 2, never 1)."""
+
+
+class AbortRun(Exception):
+    """Raised by a monitor after it recorded a violation that makes continuing pointless (e.g. out-of-bounds access)."""
+    def __init__(self, res, msg=''):
+        super().__init__(msg)
+        self.res = res
 
 
 def import_kyupy():
@@ -146,6 +153,8 @@ def execute_guarded(mod, case):
         res = mod.execute(case)
     except HarnessError:
         raise
+    except AbortRun as e:
+        return e.res
     except RecursionError:
         raise
     except Exception as e:  # noqa
